@@ -139,15 +139,29 @@ theorem ideal_num_threads_range (limit threads threshold : ℤ) :
 
 /-! ## the tuning setters -/
 
-/-- `set_alpha*(a)` is defined (no UB in `truncate3`'s cast) exactly when `a < 1` or `a·1000` truncates into int64 -/
-theorem set_alpha_defined_iff (lt1 : Bool) (k : ℤ) :
-    (∃ r, setAlphaL2 lt1 k = .ok r) ↔ (lt1 = true ∨ (i64Min ≤ k ∧ k ≤ i64Max)) := by
+/-- `set_alpha*(a)` is defined (no UB in `truncate3`'s cast) exactly when `a >= 1.0` is false (a < 1 or NaN) or
+    `min(a, 1e15)·1000` truncates into int64 -/
+theorem set_alpha_defined_iff (ge1 : Bool) (k : ℤ) :
+    (∃ r, setAlphaL2 ge1 k = .ok r) ↔ (ge1 = false ∨ (i64Min ≤ k ∧ k ≤ i64Max)) := by
   unfold setAlphaL2 castI64
-  cases lt1
+  cases ge1
+  · simp
   · by_cases h : i64Min ≤ k ∧ k ≤ i64Max
     · simp [h, bind, Except.bind, pure, Except.pure]
     · simp [h, bind, Except.bind]
-  · simp
+
+/-- `set_alpha`, `set_alpha_y`, `set_alpha_z` are defined for EVERY double (NaN, ±inf, 1e300 included): with the clamp
+    `min(a, 1e15)` of the repaired `truncate3` the cast operand lies in `[1000, 10^18] ⊂ int64` whenever the cast is
+    reached. `TruncClampEnv` is the float envelope (monotone, exact at 1e15·1000). -/
+theorem set_alpha_total (ge1 : Bool) (k : ℤ) (henv : TruncClampEnv ge1 k) :
+    ∃ r, setAlphaL2 ge1 k = .ok r := by
+  rw [set_alpha_defined_iff]
+  cases ge1
+  · exact Or.inl rfl
+  · refine Or.inr ?_
+    have h := henv rfl
+    unfold i64Min i64Max
+    constructor <;> omega
 
 /-! ## non-vacuity: concrete non-trivial instances (tests, labelled as such) -/
 
@@ -197,3 +211,4 @@ end Pc.C12Params
 #print axioms Pc.C12Params.maxx_default_partial
 #print axioms Pc.C12Params.ideal_num_threads_range
 #print axioms Pc.C12Params.set_alpha_defined_iff
+#print axioms Pc.C12Params.set_alpha_total
